@@ -394,10 +394,11 @@ def meta(tier):
         "bounds": "(a) every union/product configuration of the C09 catalogue (23 configurations, forms: forward, every admissible reverse, "
                   "equivalence, reverse of equivalence) with one integer unknown per (child, size, statistic value) - coefficients "
                   "unbounded, classes finite (2 sizes, statistic values 0..1) so the series are polynomials and nothing is truncated; "
-                  "(b) every equation of every specification returned for 64 two-state tables x 3 databases x 9 option sets checked "
+                  "(b) every equation of every specification returned for 64 two-state tables x 3 databases x the option sets listed below checked "
                   "against brute-force series to order 8; closed forms (plain pack, default and forest database) to order 16",
     })
     m["outside"] = m["outside"] + ["'for every order' for closed forms is claimed only to the stated order", "sympy's solve / series / expand are "
                                    "trusted computer algebra", "equivalence-path equations at the configuration level (covered end-to-end)",
                                    "configurations in which a child tracks a statistic the parent does not (its variable stays free in the emitted equation)"]
+    m["bounds"] = str(m.get("bounds", "")) + " || end-to-end groups of this run: " + e2e.describe_groups(groups(tier))
     return m
